@@ -14,7 +14,9 @@ import (
 	"time"
 )
 
-const verifDir = "/verif"
+var verifDir = "/verif"
+
+const verifHome = "/verif"
 
 type knownFinding struct {
 	Property   string
@@ -92,9 +94,13 @@ func CmdCheck(args []string) int {
 	prop := fs.String("property", "", "property id")
 	tier := fs.String("tier", "quick", "quick|thorough")
 	repo := fs.String("repo", "/repo", "repository")
-	ext := fs.String("ext", filepath.Join(verifDir, "specs/ext"), "external specs")
+	ext := fs.String("ext", filepath.Join(verifHome, "specs/ext"), "external specs")
 	updateBaseline := fs.Bool("update-baseline", false, "rewrite baseline_obligations for this property (deliberate act)")
+	outdir := fs.String("outdir", "", "write evidence/, work/ and replays/ under this directory instead of /verif (self-test runs)")
 	fs.Parse(args)
+	if *outdir != "" {
+		verifDir = *outdir
+	}
 	if t := os.Getenv("VERIF_TIER"); t == "quick" || t == "thorough" {
 		*tier = t
 	}
@@ -208,8 +214,8 @@ func CmdCheck(args []string) int {
 		}
 	}
 
-	known, fixed := loadKnown(filepath.Join(verifDir, "known_findings.txt"))
-	baseline := loadBaseline(filepath.Join(verifDir, "baseline_obligations.json"))
+	known, fixed := loadKnown(filepath.Join(verifHome, "known_findings.txt"))
+	baseline := loadBaseline(filepath.Join(verifHome, "baseline_obligations.json"))
 	inBaseline := map[string]bool{}
 	for _, n := range baseline[*prop] {
 		inBaseline[n] = true
@@ -276,7 +282,7 @@ func CmdCheck(args []string) int {
 		}
 		sort.Strings(ok)
 		baseline[*prop] = ok
-		saveBaseline(filepath.Join(verifDir, "baseline_obligations.json"), baseline)
+		saveBaseline(filepath.Join(verifHome, "baseline_obligations.json"), baseline)
 	}
 
 	var assumptions []string
